@@ -21,6 +21,7 @@ RULE = (
     '; pass 5: RFF / index / product-with-index kernels; index-then-operation chains (transpose, diagonal, matmul, second index) on 8x8 operators over 9 slices per side, views of one tensor as the two inputs; lazy diagonal for two inputs'
     '; pass 6: index tensors on batch dimensions; periodic / piecewise-polynomial / cosine kernels; far-from-origin few-against-many rows; index tensors must not be mutated'
     "; pass 8: every kernel evaluated once in evaluation mode, then its parameters moved in place: all access paths against a freshly built kernel holding the same state"
+    "; pass 9: a user-defined kernel with a call-time keyword (every derived lazy tensor keeps it); kernels with a non-default eps and a lengthscale below it"
 )
 REQUIRED = ["lazy_equals_eager", "lazy_index", "index_then", "diag_equals_diagonal", "transpose", "stacked_blocks", "kernel_getitem", "expand_batch", "path:lazy_getitem"]
 ASSUMPTIONS = ["torch dense indexing D[idx] is the reference semantics of an index expression"]
